@@ -242,6 +242,24 @@ def t_polys(task):
                 fits_or_ulp(acc, ['bernpoly', n, x, p], 'bernpoly(%d,%d)' % (n, x), mp.bernpoly(n, x), bp, p, fn='bernpoly')
                 ep = sum(math.comb(n, k) * Fraction(E[k], 2 ** k) * (Fraction(x) - Fraction(1, 2)) ** (n - k) for k in range(n + 1))
                 fits_or_ulp(acc, ['eulerpoly', n, x, p], 'eulerpoly(%d,%d)' % (n, x), mp.eulerpoly(n, x), ep, p, fn='eulerpoly')
+        # large degrees at small integer arguments: B_n(z) = B_n + n*sum_{j<z} j^(n-1) exactly (B_n from bernfrac, itself checked against the
+        # exact recurrence for n < 130 and by von Staudt-Clausen here: denominator = product of primes q with (q-1) | n)
+        for n in (600, 3000, 6000):
+            bn_num, bn_den = mp.bernfrac(n)
+            den = 1
+            for q in range(2, n + 2):
+                if n % (q - 1) == 0 and all(q % r for r in range(2, int(q ** 0.5) + 1)):
+                    den *= q
+            if den != bn_den:
+                acc.violation(['bernfrac', n, p], 'bernfrac(%d) denominator differs from the von Staudt-Clausen product' % n, kind='inexact', fn='bernfrac')
+                continue
+            Bn = Fraction(int(bn_num), int(bn_den))
+            for z in (3, 7, 11, -4):
+                if z > 0:
+                    bp = Bn + n * sum(Fraction(j) ** (n - 1) for j in range(0, z))
+                else:
+                    bp = Bn - n * sum(Fraction(j) ** (n - 1) for j in range(z, 0))          # B_n(z) = B_n(0) - n*sum_{j=z}^{-1} j^(n-1)
+                fits_or_ulp(acc, ['bernpoly', n, z, p], 'bernpoly(%d,%d)' % (n, z), mp.bernpoly(n, z), bp, p, fn='bernpoly')
         P = cyclo_polys(60)
         for n in range(1, 61):
             for x in (-3, -2, -1, 0, 1, 2, 3, 10):
